@@ -181,14 +181,14 @@ def r_F21():
     return not heads or not all('failing_pred21_printer' in h for h in heads)
 
 
-def r_K8():
+def r_F22():
     import prettyprinter as pp
-    # ten fresh dicts: the place of the tuple key with a commented element depends on object identity, not on its value
-    outs = set()
+    # ten fresh dicts: before the fix the place of a tuple key with a commented element depended on object identity, not on its value
     for _ in range(10):
-        out = pp.pformat({(pp.comment(2, 'c'),): 'a', (1,): 'b'}, sort_dict_keys=True, width=200)
-        outs.add(out.index("'a'") < out.index("'b'"))
-    return True in outs        # the (2,) entry can come first although (1,) < (2,)
+        out = pp.pformat({(pp.comment(2, 'c'),): 'a', (1,): 'b', (pp.comment(0, 'z'), (pp.comment(5, 'y'),)): 'c'}, sort_dict_keys=True, width=200)
+        if not (out.index("'c'") < out.index("'b'") < out.index("'a'")):
+            return True
+    return False
 
 
 def r_F7():
